@@ -4,7 +4,7 @@ import numpy as np
 from common import *
 
 ID = "C14"
-THEOREM_FILES = ["Summer.Props.C14", "Summer.Props.C17Glue", "Summer.Props.C14Source"]
+THEOREM_FILES = ["Summer.Props.C14", "Summer.Props.C14Source"]
 TASK = "task"
 RULE = ("programs with 3-8 chained requests; the full run (everything saved) is compared, exactly, with runs of the same definition under every "
         "whitelist (all subsets for <= 5 requests, 10 random ones above), random save flags, include_full_outputs=False, and a shuffled "
